@@ -373,4 +373,9 @@ def r7_setters(F, R):
     roles.check_all_builder_setters(F, R, only=r"^fail_fast$", floor=2)
 
 
-RULES = [("R1", r1, None), ("R2", r2, None), ("R3", r3, None), ("R4", r4, None), ("R5", r5, None), ("R6", r6, None), ("R7", r7_setters, None)]
+def r8_cli(F, R):
+    """`--fail-fast` is declared and read into `Cli.fail_fast`."""
+    roles.check_cli_surface(F, R, "runner::basic::Cli", only=r"^fail_fast$")
+    R.floor(1)
+
+RULES = [("R1", r1, None), ("R2", r2, None), ("R3", r3, None), ("R4", r4, None), ("R5", r5, None), ("R6", r6, None), ("R7", r7_setters, None), ("R8", r8_cli, None)]
